@@ -26,7 +26,7 @@ ASSUMPTIONS = [
     "no parameter rests on a limit (the statement excludes it)",
 ]
 LINEAR = {"lin-y", "quad-con", "idx3-cov"}
-PROBS_QUICK = ["lin-y", "quad-con", "idx3-cov", "exp-y", "exp-xy", "exp-fixed", "exp-relm", "sinus-y", "hist-nll", "unbinned-nll"]
+PROBS_QUICK = ["lin-y", "quad-con", "idx3-cov", "exp-y", "exp-xy", "exp-fixed", "exp-relm", "sinus-y", "peak-fix13", "hist-nll", "unbinned-nll"]
 PROBS_ALL = PROBS_QUICK + ["exp-xy-relm", "pow-y", "peak-fixed", "logistic-xy", "exp-lim", "hist-nllg"]
 
 
